@@ -507,7 +507,7 @@ def _series(dump):
     return out
 
 
-def _same_numbers(a, b, tol=1e-7):
+def _same_numbers(a, b, tol=1e-5):    # some diagrams (fss) compute in float32: adding a slice changes the order of the sums
     if isinstance(a, (list, tuple)) and isinstance(b, (list, tuple)):
         return len(a) == len(b) and all(_same_numbers(x, y, tol) for x, y in zip(a, b))
     if isinstance(a, str) or isinstance(b, str) or a is None or b is None:
